@@ -153,6 +153,20 @@ CHECKS["C17"] = dict(
     technique="TLC trace validation of source and copy against one TLA+ contract + TLC evaluation of the format specification on the copy's bytes",
 )
 
+CHECKS["C16"] = dict(
+    category="model_checking",
+    text="SigDef.tla transcribes signal_def_defaults + jls_core_signal_def_align (incl. the 'reduce until fits' loop as largest-divisor search and the "
+         "accept/refuse rule) and states the relations the format relies on; TLC checks on a grid of 15 (thorough 31) values per parameter x widths "
+         "{1,4,8,16,32,64} (3*10^5 .. 6*10^6 points) that the normalised parameters satisfy the relations, that normalising again changes nothing, and that "
+         "zero fields take the per-width defaults. Every grid point, plus boundary values up to 2^30 and unrepresentable ones up to UINT32_MAX, is then fed to "
+         "the real jls_core_signal_def_align once and twice (1.4*10^6 points quick); TLC checks each output row against the transcription, the relations, "
+         "idempotence and the accept/refuse rule (SigDefTrace.tla). The file round trip (jls_rd_signal equals SigDef!Normalise) is judged in C13.",
+    design_ref="DESIGN.md section 6 C16, section 7, section 12",
+    note="Trusted: TLC. Inputs >= 2^31 are logged clipped (they only need to be refused). No SMT proof over the full bit-vector domain. "
+         "Known finding C16-K1: 24-bit types (no defaults, 240-bit entries).",
+    technique="TLC model checking of a TLA+ transcription on a parameter grid + replay of the whole grid into the C function + TLC validation of its outputs",
+)
+
 NOT_YET = {}
 
 
